@@ -50,6 +50,44 @@ theorem restoreContext_verb {e : Ctx} {m m' : M} (h : restoreContext e m = .ok m
           · cases h2; rfl
         · cases h2; rfl
 
+/-- **state-restored includes the interpreter's scratch state**: after `restore_context` the spread count is 0, whatever the
+    abandoned evaluation left in it (an error raised at the consuming instruction before it executed) -/
+theorem restoreContext_spread {e : Ctx} {m m' : M} (h : restoreContext e m = .ok m') : m'.numVarargs = 0 := by
+  simp only [restoreContext] at h
+  have hpop : ∀ (n : Nat) (a b : M), popN n a = some b → b.numVarargs = a.numVarargs := by
+    intro n
+    induction n with
+    | zero => intro a b hp; simp only [popN] at hp; cases hp; rfl
+    | succ n ih =>
+      intro a b hp
+      simp only [popN] at hp
+      split at hp
+      · cases hp
+      · rename_i a1 h1
+        have : a1.numVarargs = a.numVarargs := by
+          unfold popStack at h1
+          split at h1
+          · cases h1
+          · cases h1; rfl
+          · cases h1; rfl
+        exact (ih a1 b hp).trans this
+  split at h
+  · cases h
+  · rename_i m2 h2
+    split at h
+    · cases h
+    · split at h
+      · cases h
+      · rename_i m3 h3
+        cases h
+        rw [hpop _ _ _ h3]
+        split at h2
+        · unfold popFrame at h2
+          split at h2
+          · cases h2
+          · cases h2; rfl
+        · cases h2; rfl
+
 /-- `save_context` records `last_verb` -/
 theorem saveContext_verb {m m1 : M} {econ : Ctx} (h : saveContext m = some (econ, m1)) : econ.saveVerb = m.lastVerb := by
   simp only [saveContext] at h
